@@ -141,7 +141,7 @@ PROPS["C17"] = dict(
                          LinBases={"quick": "{0,2,3,10,16}", "thorough": "{0,2,3,5,10,16}"},
                          Scales={"quick": "{0,3,9}", "thorough": "{0,1,3,6,9}"},
                          LogDoms={"quick": "LogDomsQuick", "thorough": "LogDomsThorough"},
-                         LogBases={"quick": "{2,10,16}", "thorough": "{2,3,5,10,16}"},
+                         LogBases={"quick": "{2,3,10,16}", "thorough": "{2,3,5,10,16}"},
                          Maxes={"quick": "{1,2,3,5,10,20}", "thorough": "{1,2,3,4,5,6,7,8,10,13,17,20}"})),
         dict(name="findlevel_unbounded", kind="apalache", family="findlevel", module="FindLevelInd.tla", inv="IndInv", indinit="IndInit",
              note="inductive invariant (contains the postcondition: lowest fitting level, failure iff none) over unbounded integer levels, thresholds and limits"),
